@@ -340,38 +340,59 @@ pub struct ScheduleRun {
     pub diverged: bool,
 }
 
-/// Execute the jobs on one OS thread each against the same database and the same `vm` under the cooperative
-/// scheduler, following `prefix`.
-pub fn run_schedule(db: &InMemorySubstateDatabase, vm: &DetVm, jobs: &[Job], prefix: &[usize]) -> ScheduleRun {
+/// A team of long-lived OS threads, one per job, that executes the same jobs again and again under different
+/// schedules (fresh threads per schedule would spend most of their time in thread start-up and cold allocator
+/// arenas). `f` receives a function `run(vm, prefix)` that executes all jobs once, each on its own thread,
+/// against the same database and the same `vm`, under the cooperative scheduler following `prefix`.
+pub fn with_team<R>(db: &InMemorySubstateDatabase, jobs: &[Job], f: impl FnOnce(&dyn Fn(Arc<DetVm>, &[usize]) -> ScheduleRun) -> R) -> R {
+    use std::sync::mpsc;
     let n = jobs.len();
-    let sched = Sched::new(n, prefix);
-    let mut outcomes: Vec<Option<Result<String, String>>> = (0..n).map(|_| None).collect();
-    let mut reports: Vec<CallReport> = vec![CallReport::default(); n];
     std::thread::scope(|s| {
-        let mut handles = vec![];
+        let (res_tx, res_rx) = mpsc::channel::<(usize, Result<String, String>, CallReport)>();
+        let mut go_txs = vec![];
         for (tid, job) in jobs.iter().enumerate() {
-            let sched = sched.clone();
-            handles.push(s.spawn(move || {
-                let (r, rep) = with_ctl(Plan::Shared, Some((sched.clone(), tid)), || {
-                    sched.yield_point(tid, Point::Start);
-                    mc_core::catch(|| radix_engine::transaction::execute_transaction(db, vm, job.cfg, job.exe)).map(|r| crate::world::digest(&r))
-                });
-                sched.finished(tid);
-                (r, rep)
-            }));
-        }
-        for (tid, h) in handles.into_iter().enumerate() {
-            match h.join() {
-                Ok((r, rep)) => {
-                    outcomes[tid] = Some(r);
-                    reports[tid] = rep;
+            let (go_tx, go_rx) = mpsc::channel::<Option<(Arc<Sched>, Arc<DetVm>)>>();
+            go_txs.push(go_tx);
+            let res_tx = res_tx.clone();
+            s.spawn(move || {
+                while let Ok(Some((sched, vm))) = go_rx.recv() {
+                    let (r, rep) = with_ctl(Plan::Shared, Some((sched.clone(), tid)), || {
+                        sched.yield_point(tid, Point::Start);
+                        mc_core::catch(|| radix_engine::transaction::execute_transaction(db, &*vm, job.cfg, job.exe)).map(|r| crate::world::digest(&r))
+                    });
+                    drop(vm);
+                    sched.finished(tid);
+                    if res_tx.send((tid, r, rep)).is_err() {
+                        break;
+                    }
                 }
-                Err(_) => outcomes[tid] = Some(Err("worker thread panicked outside catch".into())),
-            }
+            });
         }
-    });
-    let ctl = sched.result();
-    ScheduleRun { outcomes: outcomes.into_iter().map(|o| o.unwrap()).collect(), reports, decisions: ctl.0, trace: ctl.1, diverged: ctl.2 }
+        let run = |vm: Arc<DetVm>, prefix: &[usize]| -> ScheduleRun {
+            let sched = Sched::new(n, prefix);
+            for tx in &go_txs {
+                tx.send(Some((sched.clone(), vm.clone()))).unwrap_or_else(|_| mc_core::machinery_error("C01 scheduler: a team thread died"));
+            }
+            let mut outcomes: Vec<Option<Result<String, String>>> = (0..n).map(|_| None).collect();
+            let mut reports: Vec<CallReport> = vec![CallReport::default(); n];
+            for _ in 0..n {
+                match res_rx.recv_timeout(SCHED_TIMEOUT) {
+                    Ok((tid, r, rep)) => {
+                        outcomes[tid] = Some(r);
+                        reports[tid] = rep;
+                    }
+                    Err(_) => mc_core::machinery_error("C01 scheduler: no result from a team thread within 600 s"),
+                }
+            }
+            let ctl = sched.result();
+            ScheduleRun { outcomes: outcomes.into_iter().map(|o| o.unwrap()).collect(), reports, decisions: ctl.0, trace: ctl.1, diverged: ctl.2 }
+        };
+        let r = f(&run);
+        for tx in &go_txs {
+            let _ = tx.send(None);
+        }
+        r
+    })
 }
 
 pub fn trace_string(trace: &[(usize, u8)]) -> String {
